@@ -318,13 +318,26 @@ func checkC14Header(w *World, r *Report, ri *recInfo) {
 	for _, name := range []string{"Write", "WriteString"} {
 		fn := w.Method("recorder", name)
 		ok := false
-		eachInstr(fn, func(in ssa.Instruction) {
-			if c, isCall := in.(*ssa.Call); isCall && c.Common().IsInvoke() && c.Common().Method.Name() == "WriteHeader" && ri.isEmbedded(fn, c.Common().Value) {
-				if _, f, isLoad := loadedField(c.Common().Args[0]); isLoad && f == ri.status {
-					ok = true
+		// directly, or in a helper method called on the same recorder
+		var scan func(g *ssa.Function, depth int)
+		scan = func(g *ssa.Function, depth int) {
+			eachInstr(g, func(in ssa.Instruction) {
+				c, isCall := in.(*ssa.Call)
+				if !isCall {
+					return
 				}
-			}
-		})
+				if c.Common().IsInvoke() && c.Common().Method.Name() == "WriteHeader" && ri.isEmbedded(g, c.Common().Value) {
+					if _, f, isLoad := loadedField(c.Common().Args[0]); isLoad && f == ri.status {
+						ok = true
+					}
+					return
+				}
+				if callee := c.Call.StaticCallee(); callee != nil && depth < 2 && len(callee.Params) > 0 && len(c.Call.Args) > 0 && c.Call.Args[0] == ssa.Value(g.Params[0]) && callee.Signature.Recv() != nil {
+					scan(callee, depth+1)
+				}
+			})
+		}
+		scan(fn, 0)
 		ru.Check("implicit header in (*recorder)."+name, w.Pos(fn.Pos()), "the first body write forwards the recorded status", ok, fmt.Sprint(ok))
 	}
 	// accessors
